@@ -24,9 +24,11 @@ for d in sorted(glob.glob(V + '/harmless/*'), key=key):
         ha += 1
         if now and now.get('rc') == 0: hfixed += 1
     hrows.append(f"| {os.path.basename(d)} | {c(m.get('kind',''),70)} | {c(', '.join(m.get('files',[])),60)} | {'quiet' if f.get('rc')==0 else 'ALARM (no-failing-input-found)'} | {('quiet' if now['rc']==0 else 'alarm') if now else ''} |")
+nr = len({r for r, _ in cnt})
 text = f"""### Seeded changes (independent sub-agents, property text only)
 
-In three rounds, for every property, source changes were produced by fresh
+In {nr} rounds (rounds 1–3 and 5 for every property, round 4 likewise; about two
+changes per property and round) source changes were produced by fresh
 sub-agents that saw only the property text and a scratch worktree (never
 `/verif`); each keeps the whole 470-test suite green and comes with a
 demonstration that fails with it and passes without it (all re-confirmed by me:
@@ -38,8 +40,13 @@ are kept under `seeded/<id>-<k>/` (`patch.diff`, `demo.py`, `meta.json`).
 strengthening of the generator / oracle / model / translator (recorded per
 row, never a special case for the change); all {tot} are now reported with a
 concrete replay (`tools/regress.sh <id>` re-runs a property's whole corpus) and
-the unchanged tree still passes for seeds 0–3.  The first-trial catch rate rose
-from round to round, which is the evidence that the strengthenings generalise.
+the unchanged tree still passes for seeds 0–3.  Exact re-discoveries of an
+earlier change by a later round are not saved twice.  The whole corpus is
+re-trialled in parallel by `tools/regress_all.sh`; its first full run found two
+regressions of the machinery itself (a syntax error introduced into the C04
+sanitizer-search tool by a "comment only" edit, which silently disabled the
+search — now an import at start and a compile step in `setup.sh`; and a C07
+witness that had degraded to a bare broken correspondence), both repaired.
 
 | seeded change | round | what it breaks (clause) | what it needs | result of the check |
 |---|---|---|---|---|
